@@ -272,7 +272,11 @@ def converted_call(f, args, kwargs, caller_fn_scope=None, options=None):
     logging.log(2, 'Allowlisted %s: from cache', f)
     return _call_unconverted(f, args, kwargs, options, False)
 
-  if ag_ctx.control_status_ctx().status == ag_ctx.Status.DISABLED:
+  if (ag_ctx.control_status_ctx().status == ag_ctx.Status.DISABLED and
+      not (caller_fn_scope is not None and
+           (f is eval or f is super or f is globals or f is locals))):
+    # The frame-sensitive builtins must still be resolved against the calling
+    # user function's frame, see below.
     logging.log(2, 'Allowlisted: %s: AutoGraph is disabled in context', f)
     return _call_unconverted(f, args, kwargs, options, False)
 
